@@ -72,12 +72,28 @@ func checkClean(in string) (err error) {
 	return nil
 }
 
+// firstRewrite is the length of the longest prefix of in that CleanPath can keep as it is (approximation for the
+// class histogram: position of the first empty / "." / ".." element).
+func firstRewrite(in string) int {
+	pos := 0
+	for i, e := range strings.Split(in, "/") {
+		if i > 0 && (e == "" || e == "." || e == "..") {
+			return pos
+		}
+		pos += len(e) + 1
+	}
+	return len(in)
+}
+
 func judge(in string) bool {
 	stats.Eval()
 	if nonTrivial(in) {
 		stats.NonTrivial(in)
 		if len(in) > 128 {
 			stats.Class("longer-than-128-bytes")
+			if i := firstRewrite(in); i > 128 {
+				stats.Class("first-rewrite-beyond-byte-128")
+			}
 		}
 	}
 	if err := checkClean(in); err != nil {
@@ -137,6 +153,19 @@ func genLong(t *rapid.T) string {
 	var sb strings.Builder
 	if rapid.Bool().Draw(t, "rooted") {
 		sb.WriteByte('/')
+	}
+	// often: a long prefix that is already canonical, so that the first rewrite (and the lazy buffer
+	// allocation) happens at an offset beyond the 128-byte stack buffer
+	if rapid.IntRange(0, 2).Draw(t, "cleanprefix") == 0 {
+		clean := rapid.IntRange(100, 220).Draw(t, "cleanlen")
+		sb.Reset()
+		for sb.Len() < clean {
+			sb.WriteByte('/')
+			sb.WriteString(rapid.SampledFrom([]string{"a", "ab", "abc", "x.y", "é", "seg-1", "..a", "a..", "..."}).Draw(t, "cseg"))
+		}
+		if target < sb.Len()+6 {
+			target = sb.Len() + 6
+		}
 	}
 	for sb.Len() < target {
 		sb.WriteString(rapid.SampledFrom(longTokens).Draw(t, "tok"))
